@@ -1,2 +1,4 @@
-From V Require Import Val LtsWire.
+From V Require Import Val LtsWire LtsOracle.
 Definition x_C03_lts (v : val) : val := lts_run v.
+(* v = (case observed): the oracle of Properties/C03.v, theorem C03_model_passes *)
+Definition x_C03_ok (v : val) : val := vbool (ok_C03 (dec_lcase (nthv 0 v)) (dec_obs (nthv 1 v))).
